@@ -318,11 +318,15 @@ pub struct Buffer<T> {
     circ: Circ,
     member_size: usize,
     dummy: std::marker::PhantomData<T>,
+    #[cfg(feature = "verif")]
+    verif_id: usize,
 }
 
 impl<T> Buffer<T> {
     /// Create a new Buffer.
     pub fn new(size: usize) -> Result<Self> {
+        #[cfg(feature = "verif")]
+        let size = crate::verif::buffer_size(size);
         Ok(Self {
             state: Arc::new((
                 Mutex::new(BufferState {
@@ -338,6 +342,8 @@ impl<T> Buffer<T> {
             member_size: std::mem::size_of::<T>(),
             circ: Circ::new(size)?,
             dummy: std::marker::PhantomData,
+            #[cfg(feature = "verif")]
+            verif_id: crate::verif::buffer_created(size, std::mem::size_of::<T>()),
         })
     }
 
@@ -351,9 +357,13 @@ impl<T> Buffer<T> {
     /// Available space to write, in bytes.
     #[must_use]
     pub fn free(&self) -> usize {
+        #[cfg(feature = "verif")]
+        self.verif_yield(crate::verif::Site::Free);
         self.state.0.lock().unwrap().free()
     }
     pub fn wait_for_write(&self, need: usize) -> usize {
+        #[cfg(feature = "verif")]
+        self.verif_yield(crate::verif::Site::WaitForWrite);
         let (lock, cv) = &*self.state;
         cv.wait_timeout_while(
             lock.lock().unwrap(),
@@ -365,6 +375,8 @@ impl<T> Buffer<T> {
         .free()
     }
     pub fn wait_for_read(&self, need: usize) -> usize {
+        #[cfg(feature = "verif")]
+        self.verif_yield(crate::verif::Site::WaitForRead);
         let (lock, cv) = &*self.state;
         cv.wait_timeout_while(
             lock.lock().unwrap(),
@@ -382,6 +394,8 @@ impl<T: Copy> Buffer<T> {
     ///
     /// Will only be called from the read buffer.
     pub(in crate::circular_buffer) fn consume(&self, n: usize) {
+        #[cfg(feature = "verif")]
+        self.verif_yield(crate::verif::Site::Consume);
         let (lock, cv) = &*self.state;
         let mut s = lock.lock().unwrap();
         assert!(
@@ -416,6 +430,14 @@ impl<T: Copy> Buffer<T> {
         }
         s.rpos = newpos;
         s.used -= n;
+        #[cfg(feature = "verif")]
+        crate::verif::emit(crate::verif::Ev::Consume {
+            id: self.verif_id,
+            n,
+            rpos: s.rpos,
+            wpos: s.wpos,
+            used: s.used,
+        });
         cv.notify_all();
     }
 
@@ -423,6 +445,8 @@ impl<T: Copy> Buffer<T> {
     ///
     /// Will only be called from the write buffer.
     pub(in crate::circular_buffer) fn produce(&self, n: usize, tags: &[Tag]) {
+        #[cfg(feature = "verif")]
+        self.verif_yield(crate::verif::Site::Produce);
         if n == 0 {
             debug_assert!(tags.is_empty());
             if !tags.is_empty() {
@@ -454,6 +478,15 @@ impl<T: Copy> Buffer<T> {
         }
         s.wpos = (s.wpos + n) % s.capacity();
         s.used += n;
+        #[cfg(feature = "verif")]
+        crate::verif::emit(crate::verif::Ev::Produce {
+            id: self.verif_id,
+            n,
+            ntags: tags.len(),
+            rpos: s.rpos,
+            wpos: s.wpos,
+            used: s.used,
+        });
         cv.notify_all();
     }
 
@@ -469,6 +502,8 @@ impl<T: Copy> Buffer<T> {
     ///
     /// TODO: no need for Result in API.
     pub fn read_buf(self: Arc<Self>) -> Result<(BufferReader<T>, Vec<Tag>)> {
+        #[cfg(feature = "verif")]
+        self.verif_yield(crate::verif::Site::ReadBuf);
         let s = self.state.0.lock().unwrap();
         let (start, end) = s.read_range();
         let mut tags = Vec::with_capacity(s.tags.len());
@@ -497,6 +532,12 @@ impl<T: Copy> Buffer<T> {
                 ));
             }
         }
+        #[cfg(feature = "verif")]
+        crate::verif::emit(crate::verif::Ev::ReadOpen {
+            id: self.verif_id,
+            start,
+            end,
+        });
         drop(s);
         tags.sort_by_key(|a| a.pos());
         Ok((BufferReader::new(self, start, end), tags))
@@ -504,13 +545,65 @@ impl<T: Copy> Buffer<T> {
 
     /// Get the write slice.
     pub fn write_buf(self: Arc<Self>) -> Result<BufferWriter<T>> {
+        #[cfg(feature = "verif")]
+        self.verif_yield(crate::verif::Site::WriteBuf);
         let s = self.state.0.lock().unwrap();
         let (start, end) = s.write_range();
+        #[cfg(feature = "verif")]
+        crate::verif::emit(crate::verif::Ev::WriteOpen {
+            id: self.verif_id,
+            start,
+            end,
+        });
         drop(s);
         Ok(BufferWriter::new(
             //unsafe { std::mem::transmute::<&mut [T], &mut [T]>(buf) },
             self, start, end,
         ))
+    }
+}
+
+/// Verification hooks: identity, raw mapping access, lifetime events.
+#[cfg(feature = "verif")]
+mod verif_hooks {
+    use super::*;
+    use crate::verif::{Ev, Site, emit, yield_point};
+
+    impl<T> Buffer<T> {
+        /// Unique identity of this buffer in hook events.
+        #[must_use]
+        pub fn verif_id(&self) -> usize {
+            self.verif_id
+        }
+        /// Base address and total mapped length (both halves), in bytes.
+        #[must_use]
+        pub fn verif_raw(&self) -> (*mut u8, usize) {
+            (self.circ.map.base, self.circ.len)
+        }
+        pub(super) fn verif_yield(&self, site: Site) {
+            yield_point(site, self.verif_id, self as *const Self as *const u8 as usize);
+        }
+    }
+    impl<T> Drop for Buffer<T> {
+        fn drop(&mut self) {
+            emit(Ev::BufferDropped { id: self.verif_id });
+        }
+    }
+    impl<T: Copy> Drop for BufferReader<T> {
+        fn drop(&mut self) {
+            emit(Ev::WindowDrop {
+                id: self.parent.verif_id,
+                write: false,
+            });
+        }
+    }
+    impl<T: Copy> Drop for BufferWriter<T> {
+        fn drop(&mut self) {
+            emit(Ev::WindowDrop {
+                id: self.parent.verif_id,
+                write: true,
+            });
+        }
     }
 }
 
